@@ -164,12 +164,22 @@ func errCode(err error) int64 {
 // gatedSF decorates the SingleFlight of a ResourceManager / of a collection.Cache: the caller parks
 // at gate "pre" (GetResource invoked / Take missed the cache; about to enter singleflight) before
 // delegating.
+//
+// For the cache node (which promises every caller a COPY of the loaded value in the caller's own
+// destination) the wrapper has no "pre" gate but a "post" gate: a caller that joined somebody else's
+// call (fresh == false) parks right where DoEx hands it the shared result, and goes on only when the
+// schedule says so - after the leading caller has returned and overwritten its own destination.
 type gatedSF struct {
 	inner syncx.SingleFlight
 	ctl   *sched.Ctl
+	noPre bool
+	post  bool
 }
 
 func (g *gatedSF) pre() {
+	if g.noPre {
+		return
+	}
 	if a := g.ctl.Actor(); a >= 0 {
 		g.ctl.Gate(a, "pre", g.ctl.CurOp(a))
 	}
@@ -182,7 +192,13 @@ func (g *gatedSF) Do(key string, fn func() (any, error)) (any, error) {
 
 func (g *gatedSF) DoEx(key string, fn func() (any, error)) (any, bool, error) {
 	g.pre()
-	return g.inner.DoEx(key, fn)
+	val, fresh, err := g.inner.DoEx(key, fn)
+	if g.post && !fresh {
+		if a := g.ctl.Actor(); a >= 0 {
+			g.ctl.Gate(a, "post", g.ctl.CurOp(a))
+		}
+	}
+	return val, fresh, err
 }
 
 type res struct {
@@ -199,6 +215,9 @@ func (r *res) Close() error {
 	}
 	return nil
 }
+
+// what a thread leaves in its destination variable after it has used the value
+const destBlank = -777
 
 const stepTimeout = 3 * time.Second
 
@@ -321,11 +340,12 @@ func runCase(c Case) (out Out) {
 				defer in.mini.Close()
 				rds := redis.New(in.mini.Addr())
 				rds.Ping() // dial now: the first command of an actor must not wait for a TCP handshake
+				barrier := &gatedSF{inner: syncx.NewSingleFlight(), ctl: ctl, noPre: true, post: true}
 				if op[1] >= 1000 {
-					in.node = cache.NewNode(rds, syncx.NewSingleFlight(), cache.NewStat("verif2"), errNotFound,
+					in.node = cache.NewNode(rds, barrier, cache.NewStat("verif2"), errNotFound,
 						cache.WithExpiry(time.Minute), cache.WithNotFoundExpiry(time.Minute))
 				} else {
-					in.node = cache.NewNode(rds, syncx.NewSingleFlight(), cache.NewStat("verif"), errNotFound)
+					in.node = cache.NewNode(rds, barrier, cache.NewStat("verif"), errNotFound)
 				}
 				ctl.MinQuiet = 3 * time.Millisecond
 			}
@@ -384,6 +404,13 @@ func runCase(c Case) (out Out) {
 	}
 
 	// one call; a panic coming out of it is reported as ret [-1, -2, -1]
+	// cache node: every thread has ONE destination variable which it reuses for all its Takes and
+	// blanks right after each return (ordinary handler code); what a call returned is read before that
+	dests := make([]*int64, len(c.Scripts))
+	for t := range dests {
+		dests[t] = new(int64)
+		*dests[t] = destBlank
+	}
 	call := func(tid, i int, op []int64) {
 		defer func() {
 			if r := recover(); r != nil {
@@ -423,7 +450,7 @@ func runCase(c Case) (out Out) {
 			})
 			ctl.Log(tid, "ret", i, asInt(v), errCode(err), -1)
 		case 5, 8:
-			var got int64 = -1
+			dest := dests[tid]
 			mode := int64(0)
 			if len(op) > 4 {
 				mode = op[4]
@@ -465,18 +492,20 @@ func runCase(c Case) (out Out) {
 			}
 			switch {
 			case kind == 5 && cx == nil:
-				err = in.node.Take(&got, ks, query)
+				err = in.node.Take(dest, ks, query)
 			case kind == 5:
-				err = in.node.TakeCtx(cx, &got, ks, query)
+				err = in.node.TakeCtx(cx, dest, ks, query)
 			case cx == nil:
-				err = in.node.TakeWithExpire(&got, ks, queryx)
+				err = in.node.TakeWithExpire(dest, ks, queryx)
 			default:
-				err = in.node.TakeWithExpireCtx(cx, &got, ks, queryx)
+				err = in.node.TakeWithExpireCtx(cx, dest, ks, queryx)
 			}
+			got := *dest
 			if err != nil {
 				got = -1
 			}
 			ctl.Log(tid, "ret", i, got, errCode(err), -1)
+			*dest = destBlank // the caller is done with the value: the variable is blanked / reused
 		case 6, 7: // invalidate the cached entry ("del" is stamped once it is gone)
 			if kind == 6 {
 				in.cc.Del(ks)
